@@ -23,6 +23,12 @@ def build(tier):
             pre = [f"1 <= len(path) <= {n} and path[0] == {ch!r} and _inalph(path)", f"0 <= cwd_i < {2 if q else 4}"]
             src += hgen.cond(name, "path: str, cwd_i: int", pre, f"L.check(path, L.CWDS[cwd_i], {bi})", sig="hb.KEY")
             conds += [Cond(name, "prop", T, group="chars"), Cond(name + "__twin", "twin", 40, group="chars")]
+    # the storage flavour's own separator inside a name (windows base path): '..' hidden behind a backslash (Mode A: pathlib's
+    # windows flavour realises a symbolic string character by character)
+    src += hgen.cond("chars_backslash_b3", "n: int, i0: int, i1: int, i2: int, i3: int, cwd_i: int",
+                     ["1 <= n <= 4", "0 <= i0 <= 2 and 0 <= i1 <= 2 and 0 <= i2 <= 2 and 0 <= i3 <= 2", "n >= 2 or i1 == 0", "n >= 3 or i2 == 0", "n >= 4 or i3 == 0", "0 <= cwd_i <= 1"],
+                     "L.check_backslash(n, i0, i1, i2, i3, cwd_i, 3)", sig="hb.KEY")
+    conds += [Cond("chars_backslash_b3", "prop", T, group="chars"), Cond("chars_backslash_b3__twin", "twin", 40, group="chars")]
     src += hgen.cond("chars_empty", "cwd_i: int, bi: int", ["0 <= cwd_i < 4 and 0 <= bi < 5"], "L.check('', L.CWDS[cwd_i], bi)", sig="hb.KEY")
     conds += [Cond("chars_empty", "prop", T, group="chars"), Cond("chars_empty__twin", "twin", 40, group="chars")]
     # (2) segment level (Mode A), partitioned by base flavour and first segment
